@@ -1,7 +1,12 @@
 package props
 
 import (
+	"go/ast"
+	"go/types"
+
 	"fmt"
+	"mpcverif/internal/dispatch"
+	"sort"
 	"strings"
 
 	"golang.org/x/tools/go/ssa"
@@ -21,17 +26,86 @@ import (
 // code that dominates the arithmetic.  Points that are results of curve
 // operations are on the curve by construction.
 func C18points(p *load.Program, run *report.Run) {
-	run.Rule("points-validated-before-arithmetic", "in ot/co_helpers.go, each (x, y) operand of an elliptic.Curve ScalarMult/Add/Double that is a parameter, a field of a parameter or of an element of a slice parameter is passed as the same place to ensureOnCurve or Curve.IsOnCurve in a dominating block; results of curve operations need no check")
+	run.Rule("points-validated-before-arithmetic", "in ot/co_helpers.go, each (x, y) operand of an elliptic.Curve ScalarMult/Add/Double that is a parameter, a field of a parameter or of an element of a slice parameter is passed as the same place to ensureOnCurve or Curve.IsOnCurve in a dominating block — for arithmetic inside a function literal, in the literal or in the enclosing function before the literal is created; results of curve operations need no check")
 	pkg, err := p.Pkg("ot")
 	if err != nil {
 		run.Undecided("points-validated-before-arithmetic", "ot", "", err.Error())
 		return
 	}
+	type outerVal struct{ px, py string }
+	type unit struct {
+		fn    *ssa.Function
+		outer []outerVal
+		name  string
+	}
+	var units []unit
+	validationsOf := func(fn *ssa.Function) (out []struct {
+		ins    ssa.Instruction
+		px, py string
+	}) {
+		for _, b := range fn.Blocks {
+			for _, ins := range b.Instrs {
+				c, ok := ins.(ssa.CallInstruction)
+				if !ok {
+					continue
+				}
+				cc := c.Common()
+				switch {
+				case cc.StaticCallee() != nil && cc.StaticCallee().Name() == "ensureOnCurve" && len(cc.Args) == 3:
+					out = append(out, struct {
+						ins    ssa.Instruction
+						px, py string
+					}{ins, place(cc.Args[1], 0), place(cc.Args[2], 0)})
+				case cc.IsInvoke() && cc.Method.Name() == "IsOnCurve" && len(cc.Args) == 2:
+					out = append(out, struct {
+						ins    ssa.Instruction
+						px, py string
+					}{ins, place(cc.Args[0], 0), place(cc.Args[1], 0)})
+				}
+			}
+		}
+		return
+	}
+	var addUnits func(fn *ssa.Function, outer []outerVal, name string)
+	addUnits = func(fn *ssa.Function, outer []outerVal, name string) {
+		units = append(units, unit{fn, outer, name})
+		own := validationsOf(fn)
+		for _, g := range fn.AnonFuncs {
+			// what is validated before the closure is made holds inside it
+			inner := append([]outerVal{}, outer...)
+			for _, b := range fn.Blocks {
+				for _, ins := range b.Instrs {
+					mc, ok := ins.(*ssa.MakeClosure)
+					if !ok || mc.Fn != ssa.Value(g) {
+						continue
+					}
+					for _, v := range own {
+						if (v.ins.Block() == b && instrIndex(v.ins) < instrIndex(ins)) || (v.ins.Block() != b && v.ins.Block().Dominates(b)) {
+							inner = append(inner, outerVal{v.px, v.py})
+						}
+					}
+				}
+			}
+			addUnits(g, inner, name)
+		}
+	}
+	var members []*ssa.Function
 	for _, m := range pkg.Members {
 		fn, ok := m.(*ssa.Function)
 		if !ok || fn.Blocks == nil || !strings.HasSuffix(p.Fset.Position(fn.Pos()).Filename, "co_helpers.go") {
 			continue
 		}
+		members = append(members, fn)
+	}
+	sort.Slice(members, func(i, j int) bool { return members[i].Pos() < members[j].Pos() })
+	for _, fn := range members {
+		addUnits(fn, nil, "ot."+fn.Name())
+	}
+	perName := map[string]int{}
+	badBy := map[string][]string{}
+	var names []string
+	for _, u := range units {
+		fn := u.fn
 		// validations
 		type val struct {
 			ins    ssa.Instruction
@@ -85,6 +159,11 @@ func C18points(p *load.Program, run *report.Run) {
 					}
 					ops++
 					ok := false
+					for _, ov := range u.outer {
+						if ov.px == px && ov.py == py && px != "?" {
+							ok = true
+						}
+					}
 					for _, v := range vals {
 						if v.px != px || v.py != py || px == "?" {
 							continue
@@ -112,15 +191,101 @@ func C18points(p *load.Program, run *report.Run) {
 		if ops == 0 {
 			continue
 		}
-		run.Count("external-point-operands", ops)
-		name := "ot." + fn.Name()
-		if len(bad) > 0 {
-			run.Violate("points-validated-before-arithmetic", name, p.Rel(fn.Pos()), "a point taken from a message or from restored session state reaches curve arithmetic without an on-curve check: crypto/elliptic panics on a damaged or foreign-curve point instead of the round returning an error", bad)
+		if _, seen := perName[u.name]; !seen {
+			names = append(names, u.name)
+		}
+		perName[u.name] += ops
+		badBy[u.name] = append(badBy[u.name], bad...)
+	}
+	for _, name := range names {
+		run.Count("external-point-operands", perName[name])
+		if len(badBy[name]) > 0 {
+			run.Violate("points-validated-before-arithmetic", name, "", "a point taken from a message or from restored session state reaches curve arithmetic without an on-curve check: crypto/elliptic panics on a damaged or foreign-curve point instead of the round returning an error", badBy[name])
 		} else {
-			run.OK("points-validated-before-arithmetic", name, p.Rel(fn.Pos()), fmt.Sprintf("%d external operand(s) validated", ops))
+			run.OK("points-validated-before-arithmetic", name, "", fmt.Sprintf("%d external operand(s) validated", perName[name]))
 		}
 	}
 	run.Floor("external-point-operands", 4)
+	c18validator(p, run)
+}
+
+// c18validator: the validator itself rejects what crypto/elliptic rejects.
+//
+// Every other rule trusts ensureOnCurve.  crypto/elliptic's IsOnCurve refuses coordinates outside [0, p);
+// a validator that evaluates the curve equation itself (to avoid the deprecated call) accepts x+p for every
+// x it accepts — the congruence is the same — and the arithmetic that follows panics on it.  The validator
+// must call Curve.IsOnCurve on its operands, or test both coordinates for Sign() < 0 and Cmp(P) >= 0 in
+// conditions whose branch returns the error.
+func c18validator(p *load.Program, run *report.Run) {
+	const rule = "point-validator-checks-range"
+	run.Rule(rule, "ot.ensureOnCurve returns nil only after Curve.IsOnCurve(x, y) on its parameters, or after tests of x.Sign(), y.Sign(), x.Cmp(…P) and y.Cmp(…P) in conditions of if statements that return an error")
+	pkg, fd := dispatch.FindFunc(p, "ot", "", "ensureOnCurve")
+	if fd == nil {
+		run.Undecided(rule, "ot.ensureOnCurve", "", "function not found")
+		return
+	}
+	var coords []string
+	for _, f := range fd.Type.Params.List {
+		if strings.HasSuffix(types.ExprString(f.Type), "big.Int") {
+			for _, n := range f.Names {
+				coords = append(coords, n.Name)
+			}
+		}
+	}
+	isOn := false
+	tests := map[string]bool{}
+	ast.Inspect(fd.Body, func(n ast.Node) bool {
+		ifs, ok := n.(*ast.IfStmt)
+		if !ok {
+			return true
+		}
+		returnsErr := false
+		for _, st := range ifs.Body.List {
+			if r, ok := st.(*ast.ReturnStmt); ok && len(r.Results) > 0 {
+				if id, ok := r.Results[len(r.Results)-1].(*ast.Ident); !ok || id.Name != "nil" {
+					returnsErr = true
+				}
+			}
+		}
+		if !returnsErr {
+			return true
+		}
+		ast.Inspect(ifs.Cond, func(m ast.Node) bool {
+			c, ok := m.(*ast.CallExpr)
+			if !ok {
+				return true
+			}
+			sel, ok := c.Fun.(*ast.SelectorExpr)
+			if !ok {
+				return true
+			}
+			switch sel.Sel.Name {
+			case "IsOnCurve":
+				if len(c.Args) == 2 && len(coords) == 2 && types.ExprString(c.Args[0]) == coords[0] && types.ExprString(c.Args[1]) == coords[1] {
+					isOn = true
+				}
+			case "Sign":
+				tests[types.ExprString(sel.X)+".Sign"] = true
+			case "Cmp":
+				if len(c.Args) == 1 && strings.HasSuffix(types.ExprString(c.Args[0]), ".P") {
+					tests[types.ExprString(sel.X)+".Cmp"] = true
+				}
+			}
+			return true
+		})
+		return true
+	})
+	_ = pkg
+	run.Count("validator-functions", 1)
+	switch {
+	case isOn:
+		run.OK(rule, "ot.ensureOnCurve", p.Rel(fd.Pos()), "Curve.IsOnCurve on the parameters")
+	case len(coords) == 2 && tests[coords[0]+".Sign"] && tests[coords[1]+".Sign"] && tests[coords[0]+".Cmp"] && tests[coords[1]+".Cmp"]:
+		run.OK(rule, "ot.ensureOnCurve", p.Rel(fd.Pos()), "explicit range tests of both coordinates")
+	default:
+		run.Violate(rule, "ot.ensureOnCurve", p.Rel(fd.Pos()), "the validator neither calls Curve.IsOnCurve on its parameters nor tests both coordinates against 0 and the field prime: a coordinate v+p satisfies the curve equation and is accepted, crypto/elliptic then panics on it", nil)
+	}
+	run.Floor("validator-functions", 1)
 }
 
 // place names where a value comes from: a parameter, fields and elements of it, or a curve result.
@@ -131,6 +296,26 @@ func place(v ssa.Value, depth int) string {
 	switch t := v.(type) {
 	case *ssa.Parameter:
 		return "p:" + t.Name()
+	case *ssa.FreeVar:
+		// a captured variable is the variable of the enclosing function: its place is that of the binding
+		g := t.Parent()
+		if g == nil || g.Parent() == nil {
+			return "?"
+		}
+		idx := -1
+		for i, fv := range g.FreeVars {
+			if fv == t {
+				idx = i
+			}
+		}
+		for _, b := range g.Parent().Blocks {
+			for _, ins := range b.Instrs {
+				if mc, ok := ins.(*ssa.MakeClosure); ok && mc.Fn == ssa.Value(g) && idx >= 0 && idx < len(mc.Bindings) {
+					return place(mc.Bindings[idx], depth+1)
+				}
+			}
+		}
+		return "?"
 	case *ssa.Extract:
 		if c, ok := t.Tuple.(*ssa.Call); ok && c.Call.IsInvoke() && strings.Contains(c.Call.Value.Type().String(), "elliptic.Curve") {
 			return "curve-result"
